@@ -220,6 +220,44 @@ OK_FUN = "fun c => xval_ok (outcome_val (construct (fst c))) (snd c)"
 REQUIRES = ["PV.Model.Val", "PV.Model.XQ", "PV.Model.BoundsCheck"]
 
 
+REQUIRES_SRC = REQUIRES + ["PV.Model.BoundsSrc", "PV.gen.Src_bounds"]
+OK_FUN_SRC = "fun c => xval_ok (construct_with2 src_head src_prog (fst c)) (snd c)"
+
+
+def run_cases_both(name, cases, shard=1700, timeout=900):
+    """Like core.run_cases, but every shard is evaluated twice on the SAME literals: by the hand-written model (OK_FUN) and by
+    the generic interpreters on the GENERATED programs src_head / src_prog (OK_FUN_SRC).  Returns (compiled, bad_model, bad_src, log)."""
+    from concurrent.futures import ThreadPoolExecutor
+    from vlib import core
+    tg = [r[3:].replace(".", "/") + ".vo" for r in REQUIRES_SRC if r.startswith("PV.")]
+    okb, logb = core.coq_make(tg)
+    if not okb:
+        return False, [], [], "required modules do not build:\n" + logb[-2000:]
+    shards = [cases[i:i + shard] for i in range(0, len(cases), shard)] or [[]]
+
+    def one(k):
+        body = COQ_DEFS + f"\nDefinition the_cases : list ({CASE_TY}) := " + clist(["\n  " + c for c in shards[k]]) + ".\n"
+        body += f"Eval vm_compute in (bad_indices ({OK_FUN}) the_cases).\n"
+        body += f"Eval vm_compute in (bad_indices ({OK_FUN_SRC}) the_cases).\n"
+        ok, out = core.coq_eval(f"{name}_{k}", REQUIRES_SRC, body, timeout=timeout)
+        ev = core.split_evals(out) if ok else []
+        lists = [core.parse_nat_list(e) for e in ev]
+        if not ok or len(lists) != 2 or any(x is None for x in lists):
+            return False, None, None, out
+        return True, lists[0], lists[1], out
+    with ThreadPoolExecutor(max_workers=min(12, len(shards))) as ex:
+        res = list(ex.map(one, range(len(shards))))
+    allok, bm, bs, log = True, [], [], ""
+    for k, (ok, a, b, out) in enumerate(res):
+        if not ok:
+            allok = False
+            log += f"[shard {k}] coqc failed:\n{out[-3000:]}\n"
+        else:
+            bm += [k * shard + i for i in a]
+            bs += [k * shard + i for i in b]
+    return allok, bm, bs, log
+
+
 def cxq(x):
     if math.isnan(x):
         return "XNaN"
@@ -424,8 +462,33 @@ def classify_violation(case, res, bad):
     if res["tag"] == "StrictBounds2":
         if x0 is not None and any(math.isnan(a) for a in x0) and not all(math.isnan(a) for a in x0):
             return "nan-x0-coordinate-rejected"
-        return "plausible-box-in-margin-rejected"
+        if in_margin(case):
+            return "plausible-box-in-margin-rejected"
+        return "valid-rejected:StrictBounds2"
     return "valid-rejected:" + res["tag"]
+
+
+MARGIN = 1e-3          # the documented 0.1% margin of the known finding plausible-box-in-margin-rejected
+
+
+def in_margin(case):
+    """Declarative reading of the known finding: SOME coordinate's plausible box lies entirely inside the 0.1% margin
+    [lb, lb + 1e-3*range] or [ub - 1e-3*range, ub] of its finite hard box (1e-9 relative slack for the binary64 product)."""
+    x0, lb, ub, plb, pub = case
+    D = dimension(case)
+    if D is None:
+        return False
+    for i in range(D):
+        l = lb[i] if lb is not None else -INF
+        u = ub[i] if ub is not None else INF
+        p = plb[i] if plb is not None else l
+        q_ = pub[i] if pub is not None else u
+        if not (math.isfinite(l) and math.isfinite(u) and l < u):
+            continue
+        m = MARGIN * (u - l) * (1 + 1e-9) + 1e-300
+        if q_ <= l + m or p >= u - m:
+            return True
+    return False
 
 
 def project(case, i):
@@ -658,3 +721,156 @@ def same_problem(a, b, with_run=False):
         if "error" not in ra and (not _same(ra["x"], rb["x"]) or ra["fval"] != rb["fval"] or ra["calls"] != rb["calls"]):
             return f"run: x={ra['x']} fval={ra['fval']} n={ra['n']} vs x={rb['x']} fval={rb['fval']} n={rb['n']}"
     return None
+
+
+# ----------------------------------------------------------------------------- cases AIMED at a test / constant of the source
+#
+# Used by props/C08.py search() when a proof about the generated program, the translation itself or a tie is broken:
+# translate/bounds.py says which test / repair / constant of the CURRENT source differs from the reference translation (or at
+# which test the translation stopped); the cases below put the compared quantities of exactly those tests on, and one ulp /
+# 1e-9 / 1e-6 relative around, their boundary, put values at 0.5, 1 and 2 times every margin constant (old and new), and mix
+# coordinates on which the test's predicate holds with coordinates on which it does not (np.any vs np.all).  The trees are only
+# used to PLACE inputs; the verdict on each case is the declarative monitor's.
+
+def _ulps(x, k):
+    for _ in range(abs(k)):
+        x = float(np.nextafter(x, INF if k > 0 else -INF))
+    return x
+
+
+def base_coord(rng):
+    """a valid coordinate (x, l, u, p, q) as a dict of the model's field names"""
+    if rng.random() < 0.2:
+        c = rng.choice([0.0, rng.uniform(-50, 50)])
+        w = 10 ** rng.uniform(-1, 3)
+        p, q_ = c - w, c + w
+        return dict(cx=rng.choice([rng.uniform(p, q_), c, p, q_, c + 3 * w]), cl=-INF, cu=INF, cpl=p, cpu=q_)
+    scale = 10 ** rng.uniform(-2, 4)
+    l = rng.choice([0.0, -scale, scale * rng.uniform(0.1, 1), float(rng.randint(-5, 5)), -scale * rng.uniform(0.5, 2)])
+    u = l + scale * rng.choice([1.0, rng.uniform(0.1, 1), 2.0, 1000.0 / scale])
+    r = u - l
+    if rng.random() < 0.3:
+        p, q_ = l, u
+    else:
+        p, q_ = l + r * rng.uniform(0.02, 0.4), l + r * rng.uniform(0.6, 0.98)
+    x = rng.choice([l + r * rng.uniform(0.02, 0.98), l, u, p, q_, l + r * 0.5])
+    return dict(cx=x, cl=l, cu=u, cpl=p, cpu=q_)
+
+
+def special_coords(rng, c):
+    """invalid / degenerate variants of a coordinate (each makes some test of the list fire)"""
+    out = []
+    for upd in (dict(cu=INF), dict(cl=-INF), dict(cx=INF), dict(cx=-INF), dict(cx=NAN), dict(cu=c["cl"]), dict(cpu=c["cpl"]),
+                dict(cl=c["cpl"], cu=c["cpl"], cpu=c["cpl"]), dict(cpl=c["cpu"], cpu=c["cpl"]), dict(cl=c["cu"], cu=c["cl"]),
+                dict(cpl=NAN), dict(cpu=INF), dict(cpl=-INF), dict(cx=c["cl"] - 1.0), dict(cx=c["cu"] + 1.0),
+                dict(cpl=c["cl"] - 1.0), dict(cpu=c["cu"] + 1.0), dict(cl=-INF, cu=INF, cx=INF), dict(cl=-INF, cu=INF, cx=-INF)):
+        d = dict(c)
+        d.update(upd)
+        out.append(d)
+    return out
+
+
+def coords_case(cols, rng=None):
+    """list of coordinate dicts -> case; plausible vectors equal to the hard ones are sometimes passed as absent"""
+    vecs = [tuple(float(c[f]) for c in cols) for f in ("cx", "cl", "cu", "cpl", "cpu")]
+    if rng is not None and _same(vecs[3], vecs[1]) and _same(vecs[4], vecs[2]) and rng.random() < 0.5:
+        vecs[3] = vecs[4] = None
+    if rng is not None and all(math.isinf(c["cl"]) and math.isinf(c["cu"]) for c in cols) and rng.random() < 0.3:
+        vecs[1] = vecs[2] = None
+    return tuple(vecs)
+
+
+def gen_aimed(rng, focus, others, consts, n):
+    """focus / others: lists of (label, [inlined boolean trees (disjuncts)]) — the tests and guards to aim at (focus gets ~70% of
+    the cases); consts: margin constants (Fractions) to place values at.  Returns [(aim description, case)]."""
+    from translate import bounds as TB
+    out = []
+
+    def boundary(label, trees, k):
+        ats = []
+        for t in trees:
+            ats += TB.atoms(t)
+        if not ats:
+            return
+        for _ in range(k):
+            op, a, b = rng.choice(ats)
+            c = base_coord(rng)
+            for tgt, other in ((a, b), (b, a)):
+                if tgt[0] != "vec":
+                    continue
+                try:
+                    v = float(TB.ev(other, c))
+                except Exception:
+                    continue
+                if math.isnan(v):
+                    continue
+                for dv in ("0", "+u", "-u", "+r9", "-r9", "+r6", "-r6"):
+                    w = v
+                    if math.isfinite(v):
+                        w = {"0": v, "+u": _ulps(v, 1), "-u": _ulps(v, -1), "+r9": v + abs(v) * 1e-9 + 1e-300, "-r9": v - abs(v) * 1e-9 - 1e-300,
+                             "+r6": v + abs(v) * 1e-6 + 1e-12, "-r6": v - abs(v) * 1e-6 - 1e-12}[dv]
+                    elif dv != "0":
+                        continue
+                    d = dict(c)
+                    d[tgt[1]] = w
+                    out.append((f"{label}: {tgt[1]} {dv} at the boundary of `{op}`", coords_case([d], rng)))
+                    if rng.random() < 0.4:
+                        out.append((f"{label}: {tgt[1]} {dv} at the boundary of `{op}` (D=2)", coords_case([base_coord(rng), d], rng)))
+
+    def mixed(label, trees, k):
+        pool_t, pool_f = [], []
+        for _ in range(40):
+            c = base_coord(rng)
+            for d in [c] + special_coords(rng, c):
+                try:
+                    v = any(bool(TB.ev(t, d)) for t in trees)
+                except Exception:
+                    continue
+                (pool_t if v else pool_f).append(d)
+        if not pool_t or not pool_f:
+            return
+        for _ in range(k):
+            cols = [rng.choice(pool_t), rng.choice(pool_f)]
+            if rng.random() < 0.4:
+                cols.append(rng.choice(pool_f))
+            rng.shuffle(cols)
+            out.append((f"{label}: the predicate holds in some coordinates only", coords_case(cols)))
+            out.append((f"{label}: the predicate holds (D=1)", coords_case([rng.choice(pool_t)])))
+
+    def margins(k):
+        ks = sorted({float(x) for x in consts if 1e-9 < x < 1})
+        if not ks:
+            return
+        for _ in range(k):
+            c = base_coord(rng)
+            if not math.isfinite(c["cl"]):
+                continue
+            r = c["cu"] - c["cl"]
+            kk = rng.choice(ks)
+            ts = [0.25, 0.5, 0.999, 1.0, 1.001, 2.0, 5.0]
+            t1, t2 = sorted(rng.sample(ts, 2))
+            lo = rng.random() < 0.5
+            e = (lambda t: c["cl"] + t * kk * r) if lo else (lambda t: c["cu"] - t * kk * r)
+            variants = [dict(cpl=min(e(t1), e(t2)), cpu=max(e(t1), e(t2))), dict(cx=e(t1)), dict(cx=e(t1), cpl=c["cl"], cpu=c["cu"]),
+                        dict(cpl=min(e(t1), c["cpu"]), cpu=max(e(t1), c["cpu"])) if lo else dict(cpl=min(e(t1), c["cpl"]), cpu=max(e(t1), c["cpl"]))]
+            for v in variants:
+                d = dict(c)
+                d.update(v)
+                out.append((f"values at {t1}/{t2} x margin {kk} of the {'lower' if lo else 'upper'} bound", coords_case([d], rng)))
+
+    nf = int(n * (0.7 if focus else 0.0))
+    for label, trees in focus:
+        boundary(label, trees, max(3, nf // (20 * len(focus))))
+        mixed(label, trees, max(10, nf // (6 * len(focus))))
+    for label, trees in others:
+        boundary(label, trees, max(2, (n - nf) // (30 * max(1, len(others)))))
+        mixed(label, trees, max(4, (n - nf) // (12 * max(1, len(others)))))
+    margins(max(20, n // 10))
+    # de-duplicate, keep order
+    seen, res = set(), []
+    for a, c in out:
+        key = repr(c)
+        if key not in seen:
+            seen.add(key)
+            res.append((a, c))
+    return res
